@@ -172,6 +172,24 @@ def r14_10(ctx) -> None:
               "must be imported through OctKey.import_key (unsafe-text warning)", f"return {kp} | OctKey.import_key({kp})", construct="_normalize_key results")
 
 
+def r14_11(ctx) -> None:
+    """KeySet.algorithm_keys is one table shared by jws and jwe: it is only ever filled item by item, never rebound (a rebinding
+    registration wipes the entries of the module imported earlier)"""
+    eng = ctx.eng
+    n = 0
+    for fn in eng.prog.all_functions():
+        for node in fn_nodes(fn):
+            tgs = node.targets if isinstance(node, ast.Assign) else ([node.target] if isinstance(node, (ast.AnnAssign, ast.AugAssign)) else [])
+            for t in tgs:
+                if isinstance(t, ast.Attribute) and t.attr == "algorithm_keys":
+                    if fn.name == "<module>" and fn.module.short == "_keys":
+                        continue
+                    n += 1
+                    ctx.fail("R14.11", fn, node, f"`{norm(t)}` is rebound in {fn.short}: entries registered by the other module are lost, pick_random_key then ignores the key type",
+                             construct=f"algorithm_keys rebound in {fn.short}")
+    ctx.ok("R14.11", "KeySet.algorithm_keys", f"{n} rebinding assignment(s) outside the class body")
+
+
 def r14_3(ctx) -> None:
     eng = ctx.eng
     P = eng.prog
@@ -359,6 +377,7 @@ def run(ctx) -> None:
     ctx.guard(r14_1)
     ctx.guard(r14_2)
     ctx.guard(r14_10)
+    ctx.guard(r14_11)
     ctx.guard(r14_3)
     ctx.guard(r14_4_5)
     ctx.guard(r14_6_7)
